@@ -672,10 +672,15 @@ def _make_fn_with_signature(
     else:
         retstr = f"-> {name_to_annotation['return']}"
 
-    fnstr = f"def {name}({argstr}){retstr}:\n    {outstr}"
+    if name.isidentifier():
+        def_name = name
+    else:
+        # e.g. `<lambda>`, which cannot appear in a `def` statement.
+        def_name = _gensym(frozenset(scope.keys()) | param_names, prefix="fn")
+    fnstr = f"def {def_name}({argstr}){retstr}:\n    {outstr}"
     exec(fnstr, scope)
-    fn = scope[name]
-    del scope[name]  # Avoids introducing a reference cycle.
+    fn = scope[def_name]
+    del scope[def_name]  # Avoids introducing a reference cycle.
     fn.__module__ = module
     fn.__qualname__ = qualname
     assert fn is not None
